@@ -879,6 +879,17 @@ class Filter:
         self.name = name
         self.args = arguments
 
+        for arg in arguments:
+            # These are passed to filters by the engine. See `RenderContext.filter()`.
+            if isinstance(arg, KeywordArgument) and arg.name in (
+                "context",
+                "environment",
+            ):
+                raise LiquidSyntaxError(
+                    f"{arg.name!r} is not a valid filter argument name",
+                    token=arg.token,
+                )
+
         if env.validate_filter_arguments:
             self.validate_filter_arguments(env)
 
